@@ -43,6 +43,8 @@
 ;; spec VerifiedMsg (Iface Int Str Str Str) Bool
 (declare-fun VerifiedMsg (Iface Int Str Str Str) Bool)
 ;; spec VerifiedSeed (Iface Int Str Str Str) Bool
+;; spec TermHeightOf (Int) Int
+(declare-fun TermHeightOf (Int) Int)
 ;; spec SignsAs (Iface Str) Bool
 (declare-fun SignsAs (Iface Str) Bool)
 ;; spec VCHeaderBytes (Int Int Int Int Int) Str
